@@ -12,6 +12,7 @@ from vlib import ref_quadtree as rq
 
 PROPERTY = "C02"
 LEVEL = "exploration"
+OPTIMIZED_SAMPLE = (6, 60)  # cases repeated under python -O (quick, thorough)
 JOBS = 14
 CASE_TIMEOUT = 400
 RULE = (
